@@ -12,15 +12,25 @@ use crate::ast::Prog;
 
 pub const IT: &str = "It";
 
+/// An observation point: a sink, a user-level `inspect`, or a tap behind a stateful / multi-input operator.
 #[derive(Clone, Debug, Serialize, Deserialize)]
 pub struct Sink22 {
     pub site: u16,
-    /// variable name of the sink / tap statement
+    /// variable name of the observed operator (for a sink / inspect: the operator itself)
     pub name: String,
-    /// the order of the items reaching this sink within a tick is defined by the documentation
+    /// the order of the items at this point within a tick is defined by the documentation
     pub ordered: bool,
-    /// base operator kinds upstream of this sink, nearest first: (varname, kind, distance)
-    pub upstream: Vec<(String, String, usize)>,
+    /// (varname, kind) of the observed operator (first) and of the unobserved operators between it and `preds`
+    pub between: Vec<(String, String)>,
+    /// sites of the nearest upstream observation points
+    pub preds: Vec<u16>,
+}
+
+/// per-item operators (and plumbing) that get no tap of their own
+pub const PURE: &[&str] = &["map", "filter", "flat_map", "filter_map", "inspect", "tee", "source_stream", "for_each", "union", "tap"];
+
+pub fn base_kind(kind: &str) -> String {
+    kind.split(['\'', ':']).next().unwrap().to_string()
 }
 
 #[derive(Clone, Debug, Serialize, Deserialize)]
@@ -144,7 +154,7 @@ impl<'a> Gen<'a> {
 
     /// add one (possibly compound) operator; returns false if its input requirements cannot be met
     fn step(&mut self, op: &str) -> bool {
-        let m = "dx_shape::rt::";
+        let m = "dxs_rt::";
         match op {
             "map" => {
                 let Some(a) = self.pick(false, false, &[]) else { return false };
@@ -281,7 +291,7 @@ impl<'a> Gen<'a> {
                 let Some(a) = self.pick(false, false, &[]) else { return false };
                 let s = self.nodes[a].single;
                 // unstable sort: the order among equal keys is not defined
-                self.push("sort_by_key", "sort_by_key(|x| &x.0)", vec![(a, None)], IT, false, s);
+                self.push("sort_by_key", "sort_by_key(dxs_rt::key0)", vec![(a, None)], IT, false, s);
             }
             "cross_singleton" => {
                 let Some(a) = self.pick(false, false, &[]) else { return false };
@@ -407,56 +417,68 @@ fn gen_base(rng: &mut Rng, usage: &mut BTreeMap<String, u64>) -> (Prog, Vec<Sink
             g.nodes[k].open = false;
         }
     }
-    // materialise: explicit tee() where fan-out > 1
+    // materialise: an observation tap (`inspect`) behind every stateful / multi-input operator (the same taps are
+    // part of every variant, so they do not affect semantic identity; they let a difference be attributed to the
+    // operator whose output differs first), explicit tee() where fan-out > 1
+    let mut next_site = g.next_site;
     let ln = g.nodes;
     let mut prog = Prog::new(n_src);
     let mut idx: Vec<usize> = Vec::new(); // logical -> prog index of the node to read from
     let mut own: Vec<usize> = Vec::new(); // logical -> prog index of the node itself
+    let mut obs_at: BTreeMap<usize, (u16, bool)> = BTreeMap::new(); // prog index of an observed operator -> (site, ordered)
     for (i, n) in ln.iter().enumerate() {
         let fo: usize = ln.iter().map(|m| m.ins.iter().filter(|(s, _)| *s == i).count()).sum();
         let me = prog.add(&format!("n{i}"), &n.kind, &n.text, vec![], 0, &n.ty);
         own.push(me);
-        if fo > 1 {
-            let t = prog.add(&format!("n{i}t"), "tee", "tee()", vec![(me, None)], 0, &n.ty);
-            idx.push(t);
-        } else {
-            idx.push(me);
+        let mut out = me;
+        if let Some(site) = n.site {
+            obs_at.insert(me, (site, n.ordered));
+        } else if n.ty == IT && (!PURE.contains(&base_kind(&n.kind).as_str()) || n.ins.iter().any(|(s, _)| ln[*s].ty != IT && ln[*s].ty != "i64")) {
+            let site = next_site;
+            next_site += 1;
+            out = prog.add(&format!("n{i}i"), "tap", &format!("inspect(|x: &It| rec_t{site}.item({site}, *x))"), vec![(me, None)], 0, &n.ty);
+            obs_at.insert(me, (site, n.ordered));
         }
+        if fo > 1 {
+            out = prog.add(&format!("n{i}t"), "tee", "tee()", vec![(out, None)], 0, &n.ty);
+        }
+        idx.push(out);
     }
     for (i, n) in ln.iter().enumerate() {
         prog.nodes[own[i]].ins = n.ins.iter().map(|(s, p)| (idx[*s], p.map(|x| x.to_string()))).collect();
     }
     let mut kinds = BTreeMap::new();
     for n in &prog.nodes {
-        kinds.insert(n.name.clone(), n.kind.clone());
-    }
-    // sinks with upstream operator kinds (nearest first)
-    let mut sinks = Vec::new();
-    for (i, n) in ln.iter().enumerate() {
-        if let Some(site) = n.site {
-            let start = own[i];
-            let mut seen: BTreeMap<usize, usize> = BTreeMap::new();
-            let mut frontier = vec![start];
-            seen.insert(start, 0);
-            let mut d = 0;
-            // defer_tick cycles are finite graphs: plain BFS with a visited set
-            while !frontier.is_empty() {
-                d += 1;
-                let mut next = Vec::new();
-                for &f in &frontier {
-                    for (s, _) in &prog.nodes[f].ins {
-                        if !seen.contains_key(s) {
-                            seen.insert(*s, d);
-                            next.push(*s);
-                        }
-                    }
-                }
-                frontier = next;
-            }
-            let mut up: Vec<(String, String, usize)> = seen.iter().map(|(&k, &d)| (prog.nodes[k].name.clone(), prog.nodes[k].kind.clone(), d)).collect();
-            up.sort_by(|a, b| a.2.cmp(&b.2).then(a.1.cmp(&b.1)).then(a.0.cmp(&b.0)));
-            sinks.push(Sink22 { site, name: prog.nodes[start].name.clone(), ordered: n.ordered, upstream: up });
+        if n.kind != "tap" {
+            kinds.insert(n.name.clone(), n.kind.clone());
         }
+    }
+    // observation points: the observed operator, the unobserved operators between it and the nearest upstream
+    // observation points, and those points
+    let mut sinks = Vec::new();
+    for (&x, &(site, ordered)) in &obs_at {
+        let mut between: Vec<(String, String)> = vec![(prog.nodes[x].name.clone(), prog.nodes[x].kind.clone())];
+        let mut preds: Vec<u16> = Vec::new();
+        let mut seen: BTreeSet<usize> = BTreeSet::new();
+        let mut frontier: Vec<usize> = prog.nodes[x].ins.iter().map(|(s, _)| *s).collect();
+        while let Some(y) = frontier.pop() {
+            if !seen.insert(y) {
+                continue;
+            }
+            if let Some(&(ps, _)) = obs_at.get(&y) {
+                preds.push(ps);
+                continue;
+            }
+            if prog.nodes[y].kind != "tap" {
+                between.push((prog.nodes[y].name.clone(), prog.nodes[y].kind.clone()));
+            }
+            for (s, _) in &prog.nodes[y].ins {
+                frontier.push(*s);
+            }
+        }
+        preds.sort();
+        preds.dedup();
+        sinks.push(Sink22 { site, name: prog.nodes[x].name.clone(), ordered, between, preds });
     }
     sinks.sort_by_key(|s| s.site);
     (prog, sinks, kinds)
@@ -475,7 +497,7 @@ fn apply_insert(p: &mut Prog, dst: usize, slot: usize, kind: &str, tag: usize) {
     let (src, port) = p.nodes[dst].ins[slot].clone();
     let ty = p.nodes[src].ty.clone();
     let lp = p.nodes[dst].lp;
-    let mut add = |p: &mut Prog, name: String, k: &str, text: String, ins: Vec<(usize, Option<&str>)>, ty: &str| -> usize {
+    let add = |p: &mut Prog, name: String, k: &str, text: String, ins: Vec<(usize, Option<&str>)>, ty: &str| -> usize {
         let i = p.add(&name, k, &text, ins, lp, ty);
         p.nodes[i].base = false;
         i
